@@ -149,6 +149,8 @@ def run(chk):
             name = SHAPES.get(sh) or SHAPES.get(sh1)
             if name and o == model[i] and fnd.covers(name, {"uri": t, "once": show(t1), "twice": show(t2)}): continue
             chk.violation("normalizing twice differs from normalizing once", {"request": reqs[i], "uri": t, "build": fl, "impl": o, "shape": name})
+    lib.wrapper_check(chk, exes, [(enc_s(t), enc_s("s://h/a")) for t in texts], ("normalize", "normalizeex", "maskrequired"),
+                      "uriNormalizeSyntax / uriNormalizeSyntaxEx / uriNormalizeSyntaxMaskRequired[Ex] do not behave like the ExMm form with the documented defaults (%s)")
     if corr and not chk.violations:
         i, fl, o = corr[0]
         chk.violation("correspondence broken: Model/Normalize.v and uriNormalizeSyntaxExMm disagree (%d cases)" % len(corr),
